@@ -233,6 +233,22 @@ def run(check):
       r_o.violate('a syntax is not parsed', prs, None, 'TaggedSeries.parse does not dispatch to %s' % sorted(set(PARSERS) - calls),
                   construct='parse dispatch')
 
+  po = ts.methods.get('parse_openmetrics')
+  if po is not None:
+    # the OpenMetrics value is unescaped ( \\" -> " and \\\\ -> \\ ): a replace whose two arguments are the same string does nothing,
+    # and the two syntaxes then disagree on values containing a backslash
+    for c in walk_no_nested(po.node, include_self=False):
+      if isinstance(c, ast.Call) and isinstance(c.func, ast.Attribute) and c.func.attr == 'replace' and len(c.args) == 2 and \
+         all(isinstance(a, ast.Constant) and isinstance(a.value, str) for a in c.args):
+        if c.args[0].value == c.args[1].value:
+          r_o.violate('unescape does nothing', po, c, '`.replace(%r, %r)` replaces a string by itself: the escape sequence is left in the tag '
+                      'value, so the OpenMetrics spelling of a value normalises differently from the carbon spelling'
+                      % (c.args[0].value, c.args[1].value), construct='replace(%r, %r)' % (c.args[0].value, c.args[1].value))
+        elif len(c.args[1].value) >= len(c.args[0].value):
+          r_o.violate('unescape does not shorten', po, c, '`.replace(%r, %r)` does not turn an escape sequence into the character it stands '
+                      'for' % (c.args[0].value, c.args[1].value))
+        else:
+          r_o.ok('OpenMetrics unescape %r -> %r' % (c.args[0].value, c.args[1].value), po.loc(c))
   pc = ts.methods.get('parse_carbon')
   if pc is not None:
     splits = [c for c in walk_no_nested(pc.node, include_self=False) if isinstance(c, ast.Call) and isinstance(c.func, ast.Attribute)
